@@ -5,6 +5,7 @@ import (
 	"encoding/json"
 	"errors"
 	"fmt"
+	"os"
 	"sync"
 	"sync/atomic"
 	"time"
@@ -254,6 +255,8 @@ var specials = map[string]func() []finding{
 	"default-post":           defaultPostRoutes,
 	"same-name-node-types":   sameNameLifecycles,
 	"same-name-slice-types":  sameNameSliceTypes,
+	"bind-store-aware-hooks": bindStoreAwareHooks,
+	"bind-cyclic-values":     bindCyclicValues,
 }
 
 type specialCase struct {
@@ -266,7 +269,11 @@ func runSpecial(c *Cfg, prop, name string) {
 	if c.Shard != 0 {
 		return
 	}
+	logCase(c, specialCase{"special", name}) // (a process-fatal failure would otherwise leave no trace)
 	fs := specials[name]()
+	if c.CurFile != "" {
+		_ = os.Remove(c.CurFile)
+	}
 	c.Rep.Eval()
 	c.Rep.Count("special."+name, 1)
 	c.Rep.Nontrivial("special:" + name)
@@ -475,6 +482,126 @@ func runRouteCase(cs *RouteCase) (fs []finding) {
 		}
 		if attempts != cs.Val {
 			add("configured-after-wiring:attempts", "budget %d configured through route %q (the node was wired into a flow before its last setting was made), run through %s: %d exec attempts were made, want %d — the last setting of a parameter wins, whenever it is made", cs.Val, cs.Route, cs.Via, attempts, cs.Val)
+		}
+	}
+	return fs
+}
+
+
+// storeHook is a payload / destination whose JSON methods use the store it is bound from (a record that keeps an
+// access counter, a lazily resolved reference, ...).
+type storeHook struct {
+	S    *flyt.SharedStore `json:"-"`
+	Mode string            `json:"-"`
+	Name string            `json:"name"`
+}
+
+func (h storeHook) touch() {
+	switch h.Mode {
+	case "set":
+		h.S.Set("side", 1)
+	case "delete":
+		h.S.Delete("side")
+	case "merge":
+		h.S.Merge(map[string]any{"side": 2})
+	case "get":
+		h.S.Get("side")
+	case "len":
+		h.S.Len()
+	}
+}
+
+func (h storeHook) MarshalJSON() ([]byte, error) {
+	h.touch()
+	return json.Marshal(map[string]string{"name": h.Name})
+}
+
+type storeHookDest struct {
+	S    *flyt.SharedStore
+	Mode string
+	Name string
+}
+
+func (d *storeHookDest) UnmarshalJSON(b []byte) error {
+	storeHook{S: d.S, Mode: d.Mode}.touch()
+	var m map[string]string
+	if err := json.Unmarshal(b, &m); err != nil {
+		return err
+	}
+	d.Name = m["name"]
+	return nil
+}
+
+// bindStoreAwareHooks: the JSON methods of the value / the destination call back into the store: Result.Bind of the
+// same value returns at once, so SharedStore.Bind — which gives "exactly what encoding and decoding gives" — returns too.
+func bindStoreAwareHooks() (fs []finding) {
+	for _, mode := range []string{"set", "delete", "merge", "get", "len"} {
+		for _, side := range []string{"payload", "destination"} {
+			s := flyt.NewSharedStore()
+			s.Set("side", 0)
+			var val any = map[string]any{"name": "n"}
+			if side == "payload" {
+				val = storeHook{S: s, Mode: mode, Name: "n"}
+			}
+			s.Set("k", val)
+			mk := func() any {
+				if side == "destination" {
+					return &storeHookDest{S: s, Mode: mode}
+				}
+				return &struct{ Name string }{}
+			}
+			refErr := flyt.NewResult(val).Bind(mk())
+			var gotErr error
+			stuck, state, incon := guarded(2*time.Second, func() { gotErr = s.Bind("k", mk()) })
+			switch {
+			case incon:
+			case stuck:
+				fs = append(fs, finding{"store-bind-never-returns:" + side, fmt.Sprintf("the %s's JSON method calls %s on the store it is bound from: Result.Bind of the same value returned (error=%v), SharedStore.Bind never returned — its goroutine is parked in %s and nobody else has this store", side, mode, refErr, state)})
+			case (gotErr == nil) != (refErr == nil):
+				fs = append(fs, finding{"store-vs-result:hooks:" + side, fmt.Sprintf("the %s's JSON method calls %s on the store: SharedStore.Bind error=%v, Result.Bind error=%v", side, mode, gotErr, refErr)})
+			}
+		}
+	}
+	return fs
+}
+
+// bindCyclicValues: values that contain themselves (through a slice, a map, an interface): encoding/json reports an
+// error for them, so Bind reports an error — it does not bring the process down. (Nothing here formats the values.)
+func bindCyclicValues() (fs []finding) {
+	sl := []any{1, nil}
+	sl[1] = sl
+	mp := map[string]any{"a": 1}
+	mp["self"] = mp
+	type rec struct {
+		Next any `json:"next"`
+	}
+	rc := &rec{}
+	rc.Next = []any{rc}
+	nested := map[string]any{"list": sl}
+	for name, v := range map[string]any{"slice-containing-itself": sl, "map-containing-itself": mp, "struct-pointing-at-itself-through-an-interface": rc, "map-holding-a-cyclic-slice": nested} {
+		for _, route := range []string{"Result.Bind", "SharedStore.Bind"} {
+			var dest struct{ A int }
+			var err error
+			panicked := func() (p bool) {
+				defer func() {
+					if recover() != nil {
+						p = true
+					}
+				}()
+				if route == "Result.Bind" {
+					err = flyt.NewResult(v).Bind(&dest)
+				} else {
+					s := flyt.NewSharedStore()
+					s.Set("k", v)
+					err = s.Bind("k", &dest)
+				}
+				return false
+			}()
+			if panicked {
+				fs = append(fs, finding{"bind-panics:cyclic:" + route, fmt.Sprintf("%s of a %s panicked; encoding/json reports an error for it", route, name)})
+			} else if err == nil {
+				fs = append(fs, finding{"error-missing:cyclic:" + route, fmt.Sprintf("%s of a %s returned nil; encoding/json reports an error for it", route, name)})
+			}
 		}
 	}
 	return fs
